@@ -94,3 +94,8 @@ Print Assumptions C13_compaction_refuted.
 Theorem C13_source_never_compacts_a_receive_buffer : ShapeLib.recv_never_compacts = true.
 Proof. exact PViews.recv_never_compacts_ok. Qed.
 Print Assumptions C13_source_never_compacts_a_receive_buffer.
+
+(* the announced size of every frame is compared with the negotiated msize in both receive loops *)
+Theorem C13_source_size_checked_against_msize : V9.Shape.ShapeLib.size_checked_against_msize = true.
+Proof. exact V9.Shape.PRecv.size_checked_against_msize_ok. Qed.
+Print Assumptions C13_source_size_checked_against_msize.
